@@ -45,7 +45,7 @@ def strat_mie(tier):
         "det": gen.point_detector(8),
         "pl": st.fixed_dictionaries({"fx": gen.rounded(-0.3, 1.3, 4), "fy": gen.rounded(-0.3, 1.3, 4),
                                      "kgap": gen.logu(0.02, 3e3)}),
-        "radial": st.booleans(), "full": st.booleans(),
+        "radial": st.booleans(), "full": st.booleans(), "warm": gen.warm_strategy(),
         # aim one detector point at a distance k r equal to a zero of a low-order spherical Bessel function
         # (j_0: n pi; j_1: roots of tan x = x), where implementations that normalise a recurrence by j_0 or j_1
         # have to switch branches
@@ -82,6 +82,7 @@ def run_mie(case):
         det = gen.build_detector(case["det"], unit)
     sph = gen.make_sphere(s, o, center)
     theory = Mie(compute_escat_radial=case["radial"], full_radial_dependence=case["full"])
+    gen.warm_up(theory, sph, o, case.get("warm"))
     res = calc_field(det, sph, theory=theory, **gen.optics_kwargs(o))
     pts, got = gen.flatten(res, gen.detector_points_xyz(case["det"], unit))
     args = (complex(*s["m"]) * o["nm"], radius, center, pts, o["nm"], o["wl"], o["pol"])
@@ -184,7 +185,7 @@ def strat_ms(tier):
         "pl": st.fixed_dictionaries({"fx": gen.rounded(-0.3, 1.3, 4), "fy": gen.rounded(-0.3, 1.3, 4),
                                      "kgap": gen.logu(0.5, 1e3)}),
         "tight": st.booleans(), "radial": st.booleans(), "meth": st.sampled_from([0, 1]),
-        "wrap": st.booleans(),
+        "wrap": st.booleans(), "warm": gen.warm_strategy(),
         # size parameter at (or within a few ulp of) a zero of a Riccati-Bessel function psi_0..psi_3: "nice" user
         # numbers land there (r=0.4, n_m=1.33, wavelength 0.532 is x = 2 pi exactly)
         "x_zero": st.one_of(st.none(), st.none(), st.tuples(st.sampled_from(_PSI_ZEROS), st.sampled_from([0.0, 0.0, 2e-16, -2e-16, 1e-12, -1e-9]), st.sampled_from(["x", "x", "mx"])).map(list)),
@@ -221,6 +222,9 @@ def run_ms(case):
               "meth%d" % case["meth"], "absorbing" if s["m"][1] else "real"]
     if xz is not None:
         labels.append("x_at_zero_of_psi")
+    gen.warm_up(ms, scat, o, case.get("warm"))
+    if case.get("warm"):
+        labels.append("theory_used_before")
     a = calc_field(det, scat, theory=ms, **gen.optics_kwargs(o))
     b = calc_field(det, sph, theory=mie, **gen.optics_kwargs(o))
     _, av = gen.flatten(a)
